@@ -180,6 +180,51 @@ PROPS = {
         "shards": {"quick": 2, "thorough": 16},
         "no_panic": ["promise "],
     },
+    "C06": {
+        "modules": ["Capnp.Props.C06"],
+        "gen": False,
+        "confirm": True,
+        "rule": "scripts of 4-17 peer messages / application returns on a real rpc.Conn over an in-memory transport whose peer is the script "
+                "(Bootstrap, Calls on exports and on promised answers ready or not, with transforms and capability descriptors, Finish with / without "
+                "releaseResultCaps, Release, id reuse, unknown targets, Close): after every operation the messages sent, calls delivered, cancellations, "
+                "shutdowns of local capabilities are compared with the model's (M); mixed scripts in both directions (local Bootstrap / calls / pipelined "
+                "calls / handle release / cancel, peer Returns with capabilities, Disembargo) judged by oracles computed from the wire log: a Return only "
+                "for an outstanding call, never two; question ids not reused before their Finish; Release counts; per-capability delivery order = send "
+                "order; every local call resolves once; everything released once; wind-down terminates (S).",
+        "trusted": COMMON_TRUSTED + ["each message is handled atomically by the single receive goroutine (true of rpc.go); the model's step is that handling run to quiescence",
+                                     "question side, embargoes and disembargo are covered by the oracle stream only",
+                                     "local capabilities behave as the harness's (methods 0-5)"],
+        "assumptions": ["no transport faults (C09)"],
+        "shards": {"quick": 4, "thorough": 16},
+        "no_panic": ["rpc "],
+    },
+    "C07": {
+        "modules": ["Capnp.Props.C07"],
+        "gen": False,
+        "confirm": True,
+        "rule": "mixed rpc scripts heavy in capability traffic (capabilities in params and results in both directions, the same capability sent "
+                "repeatedly, partial and full Release, Finish with releaseResultCaps, handles taken from results and released, Close at any point), "
+                "oracles: Release(id, n) carries exactly the number of descriptors received for id since the last Release; no delivery to a local "
+                "capability after its shutdown; after Close and release of the harness's handles every local capability was shut down exactly once; "
+                "no goroutine left (S).",
+        "trusted": COMMON_TRUSTED + ["import-side counting (generation race) is covered by the oracle stream only"],
+        "assumptions": [],
+        "shards": {"quick": 4, "thorough": 16},
+        "no_panic": ["rpc "],
+    },
+    "C08": {
+        "modules": ["Capnp.Props.C08"],
+        "gen": False,
+        "confirm": True,
+        "rule": "mixed rpc scripts with hostile messages: unknown union members (message, target, transform op, return, disembargo context), "
+                "missing pointers, sendResultsTo.yourself, takeFromOtherQuestion, reused / unknown / self-referencing ids, descriptors naming "
+                "non-existent exports, Abort, null root, and valid messages with one word overwritten by a boundary value; oracles: the process "
+                "survives, no operation blocks, the wind-down (Close, releases) terminates, plus all C06/C07 oracles (S).",
+        "trusted": COMMON_TRUSTED + ["raw corruptions exercise the decoder glue; only the table logic is modelled"],
+        "assumptions": [],
+        "shards": {"quick": 4, "thorough": 16},
+        "no_panic": ["rpc "],
+    },
     "C12": {
         "modules": ["Capnp.Props.C12"],
         "gen": False,
